@@ -2,11 +2,15 @@ package props
 
 import (
 	"context"
+	"errors"
 	"fmt"
+	"io"
 	"os"
 	"runtime"
+	"strconv"
 	"sync"
 	"testing"
+	"time"
 
 	connect "github.com/bufbuild/connect-go"
 
@@ -21,13 +25,17 @@ import (
 // nothing.
 func TestC13Race(t *testing.T) {
 	if os.Getenv("VERIF_RACE_PASS") == "" {
-		t.Skip("only run by ./check C13 thorough")
+		t.Skip("only run by ./check C13")
 	}
 	connect.VerifUseRealPool(true)
 	defer connect.VerifUseRealPool(false)
+	// the hook is left installed: a handler of a cancelled call may still be
+	// running when the test function returns
 	SetGate(func(string) { runtime.Gosched() })
-	defer SetGate(nil)
 	iterations := 40
+	if n, err := strconv.Atoi(os.Getenv("VERIF_RACE_ITER")); err == nil && n > 0 {
+		iterations = n
+	}
 	calls := 0
 	for _, k := range c13Scenarios(true) {
 		if k.Sub != 0 {
@@ -62,5 +70,75 @@ func TestC13Race(t *testing.T) {
 		wg.Wait()
 		calls += iterations * len(k.Calls)
 	}
+	// one bidirectional stream sent on and received from concurrently, with
+	// and without a context cancellation arriving from a third goroutine
+	for _, p := range AllProtos {
+		for _, comp := range []Comp{CompNone, CompSendGzip} {
+			for _, cancelAt := range []int{-1, 0, 2, 5} {
+				cfg := Cfg{Proto: p, Comp: comp, Kind: KBidi, HTTP: 2}
+				h := c13Handler(KBidi, &c13Recorder{}, cfg.HandlerOptions()...)
+				tr := &memhttp.Transport{Handler: h, Proto: 2, SyncCloseReq: true}
+				cl := NewClient(tr, cfg)
+				for i := 0; i < iterations/2; i++ {
+					c13RaceOneBidi(t, cl, tr, cancelAt)
+					calls++
+				}
+			}
+		}
+	}
 	fmt.Printf("race pass: %d free-running calls on shared clients/handlers\n", calls)
+}
+
+// c13RaceOneBidi: sender, receiver and (optionally) a canceller run freely on
+// one bidirectional stream.  Without cancellation the echo must be complete.
+func c13RaceOneBidi(t *testing.T, cl *connect.Client[BV, BV], tr *memhttp.Transport, cancelAt int) {
+	ctx, cancel := context.WithCancel(context.Background())
+	defer cancel()
+	stream := cl.CallBidiStream(ctx)
+	stream.RequestHeader().Set("X-Call", "0")
+	pay := c13Payloads(0, []int{40, 600, 0, 90, 5000, 12, 300})
+	var wg sync.WaitGroup
+	var got [][]byte
+	var recvErr error
+	wg.Add(2)
+	go func() {
+		defer wg.Done()
+		for i, p := range pay {
+			if i == cancelAt {
+				go cancel()
+			}
+			if err := stream.Send(&BV{Value: p}); err != nil {
+				break
+			}
+		}
+		_ = stream.CloseRequest()
+	}()
+	go func() {
+		defer wg.Done()
+		for {
+			m, err := stream.Receive()
+			if err != nil {
+				if !errors.Is(err, io.EOF) {
+					recvErr = err
+				}
+				break
+			}
+			got = append(got, cloneBytes(m.Value))
+		}
+		_ = stream.ResponseHeader()
+		_ = stream.ResponseTrailer()
+		_ = stream.CloseResponse()
+	}()
+	wg.Wait()
+	// a cancelled call returns before its handler does: let the handler finish
+	// so that it cannot overlap the next scenario's set-up
+	for ex := tr.Last(); ex != nil && !ex.IsDone(); {
+		time.Sleep(50 * time.Microsecond)
+	}
+	if cancelAt < 0 {
+		want, _ := c13Expected(KBidi, 0, c13Call{Sizes: []int{40, 600, 0, 90, 5000, 12, 300}})
+		if recvErr != nil || !equalMsgs(got, want) {
+			t.Errorf("one-bidi free-running: got %s err=%v", shortMsgs(got), recvErr)
+		}
+	}
 }
